@@ -585,7 +585,7 @@ package redis
 // ---- C11/C04: replies from backends -------------------------------------------------------------
 
 //@ func (*client).handleResp
-//@   prop C04 C11 C02
+//@   prop C04 C11 C02 C07
 //@   alsoprop C01 C03 : only-moved-or-ask-errors-are-redirected redirections-are-followed-not-relayed
 //@   consumes req
 //@   requires v != nil
